@@ -166,6 +166,12 @@ impl DataBlockParsable for Cluster {
         reader: &Reader,
     ) -> Result<Self::Output> {
         let (cluster_builder, raw_data_size) = intermediate;
+        // The data of a cluster is stored right before its tail.
+        if raw_data_size.into_u64() > header_offset.into_u64() {
+            return Err(format_error!(&format!(
+                "Cluster data size ({raw_data_size}) is larger than what is stored before the cluster tail."
+            )));
+        }
         let reader = reader.cut(header_offset - raw_data_size, raw_data_size, false)?;
         let reader = if cluster_builder.compression == CompressionType::None {
             assert_eq!(cluster_builder.data_size, raw_data_size);
